@@ -4,6 +4,8 @@ import Ivg.Gen.Tie.DrawOps
 import Ivg.Gen.Tie.DecodeErrors
 import Ivg.Gen.Tie.Magic
 import Ivg.Gen.Tie.ParamWrites
+import Ivg.Gen.Tie.Code.Decoder8
+import Ivg.Gen.Tie.Code.Decoder9
 import Ivg.Obligations
 /-!
 # C02 — decoding is total, linear, delivers nothing before the metadata is valid, and is prefix-monotone
@@ -225,4 +227,15 @@ end Ivg.Props.C02
   Ivg.Props.C02.instruction_stable, Ivg.Props.C02.failing_instruction_prefix,
   Ivg.Props.C02.prefix_monotone,
   Ivg.Gen.Tie.drawOps_tie, Ivg.Gen.Tie.magic_tie, Ivg.Gen.Tie.decodeErrors_tie,
-  Ivg.Gen.Tie.param_writes_frame]
+  Ivg.Gen.Tie.param_writes_frame,
+  -- regenerated code (translator) = model, for all inputs: the decoder from bytes to Destination calls (Tie/Code/Decoder*.lean)
+  Ivg.Gen.Tie.decodeStyling_code_tie,
+  Ivg.Gen.Tie.decodeDrawing_code_tie,
+  Ivg.Gen.Tie.decodeMetadataChunk_code_tie,
+  Ivg.Gen.Tie.decode_code_tie,
+  Ivg.Gen.Tie.decode_Decode_code_tie,
+  Ivg.Gen.Tie.decodeViewBox_code_tie,
+  Ivg.Gen.Tie.decode_verdict_independent,
+  Ivg.Gen.Tie.decode_dstnil_code_tie,
+  Ivg.Gen.Tie.errText_message,
+  Ivg.Gen.Tie.decodeError_Error_code_tie]
